@@ -649,6 +649,13 @@ func init() {
 			p.markRacy(a[0].(Iface).V)
 			return nil
 		},
+		"vfQuietLock": func(p *Path, fr *frame, a []Value) Value {
+			if p.quietMu == nil {
+				p.quietMu = map[Ptr]bool{}
+			}
+			p.quietMu[a[0].(Iface).V.(Ptr)] = true
+			return nil
+		},
 		"vfHeld": func(p *Path, fr *frame, a []Value) Value {
 			m := p.mutexes[a[0].(Iface).V.(Ptr)]
 			return p.e.ts.Bool(m != nil && m.writer != nil)
